@@ -22,6 +22,7 @@ import WmModel.Props.C07Locks
 import WmModel.Props.C11Reg
 import WmModel.Lemmas.GcRegDone
 import WmModel.Lemmas.GcRegSubLive
+import WmModel.Lemmas.GcRegTd
 namespace Wm.GcReg
 open Wm.Lts
 
@@ -122,6 +123,59 @@ theorem after_close_returned (cfg : Cfg) (s : St) (h : Reach (sys cfg) s) (i : N
     have := hnd j _ hj
     cases pc <;> simp [needsDone] at this
     exact absurd rfl hpc
+
+theorem reach_td (cfg : Cfg) : ∀ s, Reach (sys cfg) s → TdOk s :=
+  inv_of_step (sys cfg) TdOk (td_init cfg) (fun s a s' h ha => td_step s a s' h ha)
+
+/-- `subs` changes only in Subscribe's register step (grows) and in an unsubscribe goroutine's remove step -/
+theorem subs_change (s : St) (a : Action) (s' : St) (ha : act s a = some s') (x : Nat × Nat) (hx : x ∈ s.subs)
+    (hnx : x ∉ s'.subs) : ∃ i, a = .step i ∧ s.ths[i]? = some (Th.td x.2 x.1 .remove) := by
+  cases a <;> simp only [act] at ha
+  case newPub t msgs nested =>
+    cases nested with
+    | none => simp at ha; subst ha; exact absurd hx hnx
+    | some p => simp only at ha; split at ha <;> simp at ha; subst ha; exact absurd hx hnx
+  case newSub t => simp at ha; subst ha; exact absurd hx hnx
+  case newClose => simp at ha; subst ha; exact absurd hx hnx
+  case cancel sid => simp at ha; subst ha; exact absurd hx hnx
+  case senderDone d sid => split at ha <;> simp at ha; subst ha; exact absurd hx hnx
+  case step i =>
+    split at ha
+    · rename_i t rest pc ao _
+      exfalso; apply hnx
+      cases pc <;> simp only [stepPub] at ha <;> (repeat' split at ha) <;> simp at ha <;> subst ha <;>
+        (try cases ao) <;> simp [setTh, finishSender] <;> exact hx
+    · rename_i t sid pc _
+      exfalso; apply hnx
+      cases pc <;> simp only [stepSub] at ha <;> (repeat' split at ha) <;> simp at ha <;> subst ha <;>
+        simp [setTh] <;> first | exact hx | exact Or.inl hx
+    · rename_i t sid pc hth
+      cases pc <;> simp only [stepTd] at ha
+      case remove =>
+        split at ha
+        · split at ha
+          · simp at ha; subst ha; exact absurd hx hnx
+          · simp at ha; subst ha
+            by_cases he : x = (sid, t)
+            · subst he; exact ⟨i, rfl, hth⟩
+            · exfalso; apply hnx; simp only [setTh]; exact (List.mem_erase_of_ne he).mpr hx
+        · simp at ha; subst ha; exact absurd hx hnx
+      all_goals
+        exfalso; apply hnx
+        (repeat' split at ha) <;> simp at ha <;> subst ha <;> simp [setTh] <;> exact hx
+    · rename_i pc _
+      exfalso; apply hnx
+      cases pc <;> simp only [stepCloser] at ha <;> (repeat' split at ha) <;> simp at ha <;> subst ha <;> simp [setTh] <;> exact hx
+    · simp at ha
+
+/-- **cancelling one subscription leaves the others working**: a subscription is taken out of the registry only by its own
+    unsubscribe goroutine, and that goroutine gets there only after this subscription's context was cancelled or the
+    Pub/Sub is closing – never because some other subscription was cancelled -/
+theorem removed_only_after_own_cancel_or_close (cfg : Cfg) (s : St) (h : Reach (sys cfg) s) (a : Action) (s' : St)
+    (ha : act s a = some s') (sid t : Nat) (hx : (sid, t) ∈ s.subs) (hnx : (sid, t) ∉ s'.subs) :
+    sid ∈ s.cancelled ∨ s.closingSig = true := by
+  obtain ⟨i, _, hi⟩ := subs_change s a s' ha (sid, t) hx hnx
+  exact reach_td cfg s h i t sid .remove hi (by decide)
 
 /-- non-vacuity: the D11 deadlock state followed by a Close call – the run exists, Close returns, all stuck Publish
     calls return and the pending Subscribe completes -/
